@@ -682,6 +682,7 @@ def grammar_check(run, module, which):
         for p in progs[: n // 2]:
             for d in grammar.deletions(p):
                 items.append(d)
+        items += grammar.eof_open_parens()
         ins = [d[0] for d in items]
     else:
         ren = [grammar.render(p) for p in progs]
